@@ -106,18 +106,19 @@ func (frame *PingFrame) read(h ControlFrameHeader, f *Framer) error {
 
 func (frame *GoAwayFrame) read(h ControlFrameHeader, f *Framer) error {
 	frame.CFHeader = h
+	if h.length != 8 {
+		return &Error{InvalidControlFrame, 0}
+	}
 	if err := binary.Read(f.r, binary.BigEndian, &frame.LastGoodStreamId); err != nil {
 		return err
 	}
 	frame.LastGoodStreamId = frame.LastGoodStreamId & 0x7fffffff
-	if frame.CFHeader.Flags != 0 {
-		return &Error{InvalidControlFrame, frame.LastGoodStreamId}
-	}
-	if frame.CFHeader.length != 8 {
-		return &Error{InvalidControlFrame, frame.LastGoodStreamId}
-	}
 	if err := binary.Read(f.r, binary.BigEndian, &frame.Status); err != nil {
 		return err
+	}
+	// checked after the whole frame was read, so that the reader stays at a frame boundary
+	if frame.CFHeader.Flags != 0 {
+		return &Error{InvalidControlFrame, frame.LastGoodStreamId}
 	}
 	return nil
 }
@@ -128,20 +129,21 @@ func (frame *HeadersFrame) read(h ControlFrameHeader, f *Framer) error {
 
 func (frame *WindowUpdateFrame) read(h ControlFrameHeader, f *Framer) error {
 	frame.CFHeader = h
+	if h.length != 8 {
+		return &Error{InvalidControlFrame, 0}
+	}
 	if err := binary.Read(f.r, binary.BigEndian, &frame.StreamId); err != nil {
 		return err
 	}
 	frame.StreamId = frame.StreamId & 0x7fffffff
-	if frame.CFHeader.Flags != 0 {
-		return &Error{InvalidControlFrame, frame.StreamId}
-	}
-	if frame.CFHeader.length != 8 {
-		return &Error{InvalidControlFrame, frame.StreamId}
-	}
 	if err := binary.Read(f.r, binary.BigEndian, &frame.DeltaWindowSize); err != nil {
 		return err
 	}
 	frame.DeltaWindowSize = frame.DeltaWindowSize & 0x7fffffff
+	// checked after the whole frame was read, so that the reader stays at a frame boundary
+	if frame.CFHeader.Flags != 0 {
+		return &Error{InvalidControlFrame, frame.StreamId}
+	}
 	return nil
 }
 
